@@ -6,6 +6,7 @@
  *  history : E-bfs full reachability of small bit / byte matrices under set / clear / toggle / write
  */
 #include "vh.h"
+#include <fenv.h>
 #include <sys/mman.h>
 
 #include "varint.h"
@@ -177,6 +178,64 @@ enum { K_BIT, K_U1, K_U2, K_U3, K_U4, K_U5, K_U6, K_U7, K_U8, K_FLOAT, K_DOUBLE,
 static const char *KN[K_N] = {"bit", "u8", "u16", "u24", "u32", "u40", "u48", "u56", "u64", "float", "double", "half"};
 static int kind_width(int k) { return k == K_BIT ? 0 : k <= K_U8 ? k : k == K_FLOAT ? 4 : k == K_DOUBLE ? 8 : 2; }
 
+/* IEEE 754 binary32 -> binary16, round to nearest even, and back (reference for the half-float cells) */
+static uint16_t ref_f32_to_f16(float f) {
+    uint32_t x;
+    memcpy(&x, &f, 4);
+    uint32_t sign = (x >> 16) & 0x8000u, e = (x >> 23) & 0xff, m = x & 0x7fffffu;
+    if (e == 0xff) {
+        return (uint16_t)(sign | 0x7c00u | (m ? 0x200u | (m >> 13) : 0));
+    }
+    int32_t ne = (int32_t)e - 127 + 15;
+    if (ne >= 0x1f) {
+        return (uint16_t)(sign | 0x7c00u);
+    }
+    if (ne <= 0) {
+        if (ne < -10) {
+            return (uint16_t)sign;
+        }
+        m |= 0x800000u;
+        uint32_t shift = (uint32_t)(14 - ne);
+        uint32_t hm = m >> shift, rem = m & ((1u << shift) - 1), half = 1u << (shift - 1);
+        if (rem > half || (rem == half && (hm & 1))) {
+            hm++;
+        }
+        return (uint16_t)(sign | hm);
+    }
+    uint32_t hm = m >> 13, rem = m & 0x1fffu;
+    uint32_t h = (uint32_t)(ne << 10) | hm;
+    if (rem > 0x1000u || (rem == 0x1000u && (h & 1))) {
+        h++; /* may carry into the exponent, up to infinity: correct */
+    }
+    return (uint16_t)(sign | h);
+}
+static float ref_f16_to_f32(uint16_t h) {
+    uint32_t sign = (uint32_t)(h & 0x8000u) << 16, e = (h >> 10) & 0x1f, m = h & 0x3ffu, x;
+    if (e == 0x1f) {
+        x = sign | 0x7f800000u | (m << 13);
+    } else if (e == 0) {
+        if (m == 0) {
+            x = sign;
+        } else {
+            int sh = 0;
+            while (!(m & 0x400u)) {
+                m <<= 1;
+                sh++;
+            }
+            x = sign | (uint32_t)(127 - 15 + 1 - sh) << 23 | ((m & 0x3ffu) << 13);
+        }
+    } else {
+        x = sign | (e + 127 - 15) << 23 | (m << 13);
+    }
+    float f;
+    memcpy(&f, &x, 4);
+    return f;
+}
+/* the floating-point cells are written and read under each rounding direction: the stored bytes are a function of the
+ * value alone (float and double cells store the value verbatim, half cells round to nearest even) */
+static const int C10_ROUND[4] = {FE_TONEAREST, FE_DOWNWARD, FE_UPWARD, FE_TOWARDZERO};
+static int g_c10_round = 0;
+
 static size_t pick_cells(uint64_t rows_eff, uint64_t cols, uint64_t (*cells)[2], size_t cap) {
     size_t k = 0;
     if (rows_eff * cols <= 600) {
@@ -255,9 +314,9 @@ static void cell_case(uint64_t rows, uint64_t cols, int kind, uint64_t region_ce
     } else if (kind == K_BIT) {
         nuv = 3; /* set true, set false, toggle */
     } else {
-        nuv = 6;
+        nuv = 11;
     }
-    static const double FV[6] = {0.0, -0.0, 1.5, -65504.0, 6.103515625e-05, 1.0 / 0.0};
+    static const double FV[11] = {0.0, -0.0, 1.5, -65504.0, 6.103515625e-05, 1.0 / 0.0, 1.000244140625 /* 1 + 2^-12 */, 65505.0, -1e-8, 0.1, 1.0009765625 + 0.00048828125 /* tie */};
     for (size_t ci = 0; ci < nc; ci++) {
         uint64_t r = cells[ci][0], c = cells[ci][1];
         uint64_t idx = r * cols + c;
@@ -267,7 +326,8 @@ static void cell_case(uint64_t rows, uint64_t cols, int kind, uint64_t region_ce
                 uint8_t *m = vh_gb_get(0, total, bg);
                 int dim = (int)varintDimensionPairEncode(m, (size_t)rows, (size_t)cols);
                 memcpy(refbuf, m, total);
-                snprintf(desc, sizeof desc, "%" PRIu64 "x%" PRIu64 " %s matrix, cell (%" PRIu64 ",%" PRIu64 "), value #%d, background %02x", rows, cols, KN[kind], r, c, vi, bg);
+                snprintf(desc, sizeof desc, "%" PRIu64 "x%" PRIu64 " %s matrix, cell (%" PRIu64 ",%" PRIu64 "), value #%d, background %02x%s", rows, cols, KN[kind], r, c, vi, bg,
+                         kind >= K_FLOAT ? (const char *[]){", rounding to-nearest", ", rounding downward", ", rounding upward", ", rounding toward-zero"}[(ci + (size_t)vi) & 3] : "");
                 char api[64];
                 int ok = 1;
                 uint64_t gotu = 0;
@@ -301,6 +361,7 @@ static void cell_case(uint64_t rows, uint64_t cols, int kind, uint64_t region_ce
                         gotu = varintDimensionPairEntryGetUnsigned(m, (size_t)r, (size_t)c, (varintWidth)ew, (varintDimensionPair)dim);
                     } else if (kind == K_FLOAT) {
                         snprintf(api, sizeof api, "dimension.EntrySetFloat");
+                        fesetround(C10_ROUND[g_c10_round = (int)((ci + (size_t)vi) & 3)]);
                         float f = (float)FV[vi];
                         varintDimensionPairEntrySetFloat(m, (size_t)r, (size_t)c, f, (varintDimensionPair)dim);
                         memcpy(refbuf + hl + (size_t)idx * 4, &f, 4);
@@ -309,6 +370,7 @@ static void cell_case(uint64_t rows, uint64_t cols, int kind, uint64_t region_ce
                         gotd = g;
                     } else if (kind == K_DOUBLE) {
                         snprintf(api, sizeof api, "dimension.EntrySetDouble");
+                        fesetround(C10_ROUND[g_c10_round = (int)((ci + (size_t)vi) & 3)]);
                         double d = FV[vi];
                         varintDimensionPairEntrySetDouble(m, (size_t)r, (size_t)c, d, (varintDimensionPair)dim);
                         memcpy(refbuf + hl + (size_t)idx * 8, &d, 8);
@@ -319,17 +381,23 @@ static void cell_case(uint64_t rows, uint64_t cols, int kind, uint64_t region_ce
 #if defined(__F16C__)
                         snprintf(api, sizeof api, "dimension.EntrySetFloatHalf");
                         float f = (float)FV[vi];
+                        uint16_t want16 = ref_f32_to_f16(f);
+                        float wantf = ref_f16_to_f32(want16);
+                        fesetround(C10_ROUND[g_c10_round = (int)((ci + (size_t)vi) & 3)]);
                         varintDimensionPairEntrySetFloatHalf(m, (size_t)r, (size_t)c, f, (varintDimensionPair)dim);
                         float g = varintDimensionPairEntryGetFloatHalf(m, (size_t)r, (size_t)c, (varintDimensionPair)dim);
-                        /* values of the alphabet are exactly representable as IEEE half */
-                        ok = memcmp(&f, &g, 4) == 0;
+                        fesetround(FE_TONEAREST);
+                        /* the cell holds the IEEE half nearest to the value (ties to even) whatever the caller's rounding
+                         * direction is, and reads back as exactly that half */
+                        ok = memcmp(&wantf, &g, 4) == 0;
                         gotd = g;
-                        /* reference: whatever two bytes were stored must be confined to the cell */
-                        memcpy(refbuf + hl + (size_t)idx * 2, m + hl + (size_t)idx * 2, 2);
+                        memcpy(refbuf + hl + (size_t)idx * 2, &want16, 2);
 #endif
                     }
+                    fesetround(FE_TONEAREST);
                     SB_LEAVE();
                 } else {
+                    fesetround(FE_TONEAREST);
                     vh_fail(api, vh_fault_kind == 1 ? "write_past_matrix" : vh_fault_name(), "untagged", "%s: %s (matrix of %zu bytes, off %ld)", desc, vh_fault_msg, total, vh_fault_off);
                     continue;
                 }
